@@ -67,7 +67,8 @@ theorem ppos_symmetric (n : Nat) (cst : α) (h0 : 0 ≤ cst) (h1 : cst ≤ 1 / 2
   injection h with h
   subst h
   have hj : n - 1 - i < n := by omega
-  refine ⟨_, _, ?_, ?_, ?_⟩
+  refine ⟨(((i + 1 : Nat) : α) - cst) / (((n + 1 : Nat) : α) - 2 * cst),
+    (((n - 1 - i + 1 : Nat) : α) - cst) / (((n + 1 : Nat) : α) - 2 * cst), ?_, ?_, ?_⟩
   · rw [List.getElem?_map, List.getElem?_range hi]; rfl
   · rw [List.getElem?_map, List.getElem?_range hj]; rfl
   · have hden := ppos_den_pos n (by omega) cst h1
